@@ -1682,6 +1682,40 @@ func domMergeAtomic(r *engine.Run, rule string) {
 			if ex, ok := ev.(*ssa.Extract); ok && ex.Tuple == ssa.Value(c) {
 				own = true
 			}
+			// the store operation's error wrapped with context (fmt.Errorf("...: %w", err))
+			if wc, ok := ev.(*ssa.Call); ok {
+				for _, ref := range engine.Referrers(c) {
+					if ex, ok := ref.(*ssa.Extract); ok && dependsOn(wc, ex) {
+						own = true
+					}
+				}
+				if dependsOn(wc, c) {
+					own = true
+				}
+			}
+		}
+		if !own {
+			// whatever is returned, it is returned on the error branch of a store operation
+			if facts, ok := engine.FactsOn(f, ret.Block()); ok {
+				for _, ft := range facts {
+					if ft.Kind != "eq" || ft.Truth {
+						continue
+					}
+					for _, pr := range [][2]ssa.Value{{ft.A, ft.B}, {ft.B, ft.A}} {
+						if !nilConst(pr[1]) {
+							continue
+						}
+						for _, c := range replay {
+							if pr[0] == ssa.Value(c) {
+								own = true
+							}
+							if ex, ok := pr[0].(*ssa.Extract); ok && ex.Tuple == ssa.Value(c) {
+								own = true
+							}
+						}
+					}
+				}
+			}
 		}
 		r.Check(own, rule, o.next(fn(f)+"|error after the replay"), r.P.Pos(ret.Pos()), "the only errors returned once the replay has begun are those of the replay's own store operations",
 			"mergeChanges can return an error after it has replayed (part of) the child's changes for a reason other than a failed store operation: the merge is reported as refused while the parent already holds the child's nodes and deletes under its old root - its content, root and pending changes are not what they were, and a child whose view is the empty trie (nil root) can never be merged")
@@ -2059,6 +2093,14 @@ func cloneComplete(r *engine.Run, rule string) {
 			}
 		}
 		mark(cp, 0)
+		for _, ref := range engine.Referrers(cp) {
+			if s2, ok := ref.(*ssa.Store); ok && s2.Addr == ssa.Value(cp) {
+				// clone := *fn: every field starts as the source's
+				for i := 0; i < st.NumFields(); i++ {
+					covered[st.Field(i).Name()] = true
+				}
+			}
+		}
 		var missing []string
 		for i := 0; i < st.NumFields(); i++ {
 			if !covered[st.Field(i).Name()] {
